@@ -28,6 +28,12 @@ MOVERS = [
     ('nest', [], 'tru'),
     ('rmw', [], ('conj', ('call', 'retract', [('F', 'd1', [V_('X'), V_('Y')])]), ('conj', ('call', 'retractall', [('F', 'd1', [V_('Y'), ('_',)])]), 'fail')), True),
     ('rmw', [], 'tru'),
+    # the same with the answers observed: what a retract answers after another goal removed later facts
+    ('rall0', [V_('X')], ('conj', ('call', 'retract', [('F', 'd0', [V_('X')])]), ('call', 'retractall', [('F', 'd0', [('_',)])])), True),
+    ('rall2', [V_('X')], ('conj', ('call', 'retract', [('F', 'd2', [V_('X')])]), ('call', 'retractall', [('F', 'd2', [V_('X')])])), True),
+    ('rpair', [V_('X'), V_('Y')], ('conj', ('call', 'retract', [('F', 'd0', [V_('X')])]), ('call', 'retract', [('F', 'd0', [V_('Y')])])), True),
+    ('rkeep', [V_('X'), V_('Y')], ('conj', ('call', 'retract', [('F', 'd1', [V_('X'), V_('Y')])]),
+                                   ('conj', ('call', 'retractall', [('F', 'd1', [('_',), V_('Y')])]), ('call', 'assertz', [('F', 'd1', [V_('Y'), V_('X')])]))), True),
 ]
 
 
@@ -107,7 +113,9 @@ def history(rnd, length):
             ops.append(('clear',))
             ops.append(('load', 'overwrite', HELPERS + MOVERS))
         elif r < 0.985:
-            ops.append(('query', rnd.choice(['mv0', 'mv2', 'nest', 'rmw']), ('all',), []))
+            m = rnd.choice(['mv0', 'mv2', 'nest', 'rmw', 'rall0', 'rall2', 'rpair', 'rkeep', 'rall0', 'rpair'])
+            nargs = {'rall0': 1, 'rall2': 1, 'rpair': 2, 'rkeep': 2}.get(m, 0)
+            ops.append(('query', m, rnd.choice([('all',), ('all',), ('stop', 1), ('stop', 2)]) if nargs else ('all',), [v(20 + j) for j in range(nargs)]))
         else:
             ops.append(('query', name, ('all',), [v(i) for i in range(arity)]))
         ops.extend(readback(names))
